@@ -258,10 +258,13 @@ func doObjdump(binary, hash string) (string, error) {
 		}
 	}
 
-	f, err = os.Create(dumpFile)
+	// The cache is trusted based on its first line, so it must only ever contain complete
+	// dumps. Write to a temporary file and rename it once everything has been written.
+	f, err = os.CreateTemp(filepath.Dir(dumpFile), filepath.Base(dumpFile)+".tmp")
 	if err != nil {
 		return "", err
 	}
+	defer os.Remove(f.Name())
 	defer f.Close()
 
 	out := bufio.NewWriter(f)
@@ -274,6 +277,19 @@ func doObjdump(binary, hash string) (string, error) {
 	cmd := exec.Command("go", "tool", "objdump", binary)
 	cmd.Stdout = out
 	if err = cmd.Run(); err != nil {
+		return "", err
+	}
+
+	if err = out.Flush(); err != nil {
+		return "", err
+	}
+	if err = f.Sync(); err != nil {
+		return "", err
+	}
+	if err = f.Close(); err != nil {
+		return "", err
+	}
+	if err = os.Rename(f.Name(), dumpFile); err != nil {
 		return "", err
 	}
 
